@@ -143,6 +143,52 @@ def load_asymmetry(led):
                 led.fail(cl, RB, {'Nxxtop': [str(v) for v in nx], 'moment': str(moment), 'expected': str(M), 'difference': bad, 'non-zero harmonics': others}, signature='MLA:' + how)
 
 
+def force_registration(led):
+    """ConeCyl.add_force / add_SPL: every call appends one entry [x, theta in radians, fx, ftheta, fz] to the list that matches
+    ``increment``; the perturbation load is the normal force -PL at x = pt*L and the circumferential position given in degrees"""
+    it = PC.mk()
+    it.facts += [to_z3(real('r2')) > 0, to_z3(real('L')) > 0, to_z3(real('alphadeg')) > 0, to_z3(real('alphadeg')) < 90, to_z3(shims.PI) > 3,
+                 to_z3(shims.sym_cos(shims.sym_deg2rad(real('alphadeg')))) > 0]
+    for meth, inc_ in itertools.product(('add_force', 'add_SPL'), (False, True)):
+        func = PC.CC + meth
+        led.function(func)
+
+        def run():
+            cc = PC.new_cc(it, alphadeg=real('alphadeg'), r2=real('r2'), L=real('L'), n2=2, stack=[real('th0')], plyt=real('plyt'), laminaprop=(real('E1'),))
+            for k in range(2):                    # the same load twice: both are registered
+                if meth == 'add_force':
+                    it.call(it.getattr(cc, meth), [real('xf'), real('thetadeg_f'), real('fx'), real('ft'), real('fz')], dict(increment=inc_))
+                else:
+                    it.call(it.getattr(cc, meth), [real('PL')], dict(pt=real('pt'), thetadeg=real('thetadeg_f'), increment=inc_))
+            return cc
+        for path, out in it.explore(run):
+            name = '%s[increment=%s]/every-call-appends-its-load' % (func, inc_)
+            if out[0] != 'return':
+                led.fail(name + '/no-exception', func, {'raises': out[1].tname}, signature='raise')
+                continue
+            cc = out[1]
+            mine, theirs = ('forces_inc', 'forces') if inc_ else ('forces', 'forces_inc')
+            th = shims.sym_deg2rad(real('thetadeg_f'))
+            want = ([real('xf'), th, real('fx'), real('ft'), real('fz')] if meth == 'add_force' else
+                    [real('pt') * real('L'), th, P.const(0), P.const(0), -real('PL')])
+            got = [list(x) for x in cc.attrs.get(mine, [])]
+            probs = []
+            if len(got) != 2:
+                probs.append('%s holds %d entries after two calls' % (mine, len(got)))
+            for e in got:
+                for k_, (g_, w_) in enumerate(zip(e, want)):
+                    g_ = g_ if isinstance(g_, P) else P.const(g_)
+                    if not K.compare(g_, w_)[0]:
+                        probs.append('entry %d of the registered load is %s, expected %s' % (k_, g_, w_))
+                        break
+            if cc.attrs.get(theirs):
+                probs.append('%s was changed' % theirs)
+            if probs:
+                led.fail(name, func, {'differences': probs[:4]}, signature='register:' + meth)
+            else:
+                led.ok(name, func)
+
+
 def static_wrapper(led):
     """ConeCyl.static: hands the analysis over to Analysis.static with the caller's NLgeom and returns its states; it leaves the
     definition of the shell and of its loads alone (what calc_fext / calc_k0 will read is what the caller defined)"""
@@ -235,6 +281,7 @@ def body(led):
     axial_load(led)
     load_asymmetry(led)
     static_wrapper(led)
+    force_registration(led)
     from . import c18_fext, c18_partition
     c18_fext.check(led)
     from . import c18_fext_any
